@@ -434,7 +434,18 @@ class Expression(object):
 
 def install_cexprtk(I):
     def symtab(args, kwargs, node, env):
-        return PyObjV(SymbolTable())
+        # cexprtk.Symbol_Table(variables, constants={}, add_constants=False, functions={})
+        st = SymbolTable()
+        if len(args) > 1 or set(kwargs) - {"add_constants"}:
+            raise AnalysisError("cexprtk.Symbol_Table model: constants/functions arguments")
+        if args:
+            v = args[0]
+            if not isinstance(v, DictV):
+                raise AnalysisError("cexprtk.Symbol_Table model: variables %r" % (v,))
+            for k, val in v.items.values():
+                st.variables.setitem(I, k, val)
+        st.add_constants = kwargs.get("add_constants")
+        return PyObjV(st)
 
     def expression(args, kwargs, node, env):
         return PyObjV(Expression(_s(args[0]) if isinstance(args[0], Const) else repr(args[0]), args[1].obj)).as_callable() \
